@@ -138,6 +138,18 @@ func scenario(seed int64, k int, res *l2.Result) {
 						"after a restart, with the honest chain at rest and the honest peer connected: "+v, witness())
 				} else {
 					res.Count("stability_samples", int64(n))
+					// Growth after the restart: the in-memory header window
+					// holds only the tip now, so the contextual checks
+					// (retarget, median time) of the next headers must find
+					// their ancestors in the store. Enough blocks to cross a
+					// retarget boundary of every preset.
+					ext := w.G.Extend(tip, 2*plan.Interval+3, 0)
+					nt := ext[len(ext)-1]
+					b.AnnounceExtension(ext)
+					ok2, stuck2, last2 := b.AwaitTip(nt, deadline)
+					if phase("growth-after-restart", nt.Height, ok2, stuck2, last2) {
+						res.Count("blocks_adopted_after_restart", int64(len(ext)))
+					}
 				}
 			} else {
 				res.Inconcl("restarted client not at the honest tip before the stability phase")
